@@ -34,6 +34,9 @@ def gen(rng, tier, idx):
     g = rtgen.Prog(r, nth, cap, knobs, stale_pct=8)
     cpus = [(i, i * 2) for i in range(r.randint(1, 3))]
     g.start(conformant=True, cpus=cpus)
+    if rng.derive("sibling").chance(8) and not knobs.get("symlinks"):
+        # a second process of the loom has already written its part of the trace into the same directory
+        knobs["sibling"] = "%s:%d:%d" % (rtgen.LOOM, rtgen.PID + 1, 900)
     # 35%: threads also use other models; each thread requires exactly the models whose events it emits
     # (a model is enabled when SOME stream requires it, whichever thread that is)
     rq = rng.derive("require")
